@@ -184,6 +184,10 @@ def run(ctx):
     verd = cases.validate(ctx, "SelLimits_Trace", "SelLimits_Trace.cfg", allc, "SelLimits_Trace", chunk=4, procs=14)
     ctx.traces += len(allc)
     for c in allc:
+        for k_, g_ in enumerate(c["gens"]):
+            if g_.get("argsame"):
+                ctx.violation("DenseAdditiveLinearGenomicModel.usl/lsl/gebv:arguments-modified:" + ",".join(g_["argsame"]),
+                              "querying the limits / breeding values modified %s (generation %d)" % (g_["argsame"], k_), {"n": g_["n"], "src": g_["src"]})
         v, k = verd[c["id"]]
         fixed_during = any(any(x in (0, 2 * g["n"]) for x in g["a"]) for g in c["gens"][1:])
         ctx.count(1, repr(c["gens"]) if fixed_during else None)
